@@ -97,11 +97,26 @@ func c06Decorate(src string, deco int) string {
 				} else {
 					out += "\n"
 				}
-			case 3: // trailing block comment and blanks
+			case 3: // trailing block comment (a blank before it, nothing after it)
 				if len(line) > 0 {
-					out += line + " /* c */  \n"
+					out += line + " /* c */\n"
 				} else {
 					out += "\n"
+				}
+			case 4: // trailing block comment followed by blanks
+				if len(line) > 0 {
+					out += line + "  /* c */ \n"
+				} else {
+					out += "\n"
+				}
+			case 5: // an indented own-line block comment after every line
+				k := 0
+				for k < len(line) && line[k] == ' ' {
+					k++
+				}
+				out += line + "\n"
+				if len(line) > 0 {
+					out += line[:k] + "    /* own line */\n"
 				}
 			}
 		}
@@ -121,7 +136,7 @@ func c06Setup(src string) {
 				k++
 			}
 			c06LineStart = append(c06LineStart, start)
-			if k == i || (k+1 < i && src[k] == '/' && src[k+1] == '/') {
+			if k == i || (k+1 < i && src[k] == '/' && (src[k+1] == '/' || src[k+1] == '*')) {
 				c06Indent = append(c06Indent, -1) // blank (or comment-only) line: no token starts here
 			} else {
 				c06Indent = append(c06Indent, k-start)
@@ -206,7 +221,7 @@ var c06Templates = []string{
 
 func c06RunTemplate(t int) {
 	src := c06Expand(c06Templates[t], "")
-	src = c06Decorate(src, verifChoice("deco", 4))
+	src = c06Decorate(src, verifChoice("deco", 6))
 	want, p, msg := compileSrc(src)
 	verifAssert(!p, "the canonical layout is accepted: "+msg)
 	// every layout of the property's grammar over the same text
@@ -236,7 +251,7 @@ func Harness_C06B_If()     { c06RunTemplate(3) }
 func Harness_C06B_Breaks() {
 	t := verifChoice("template", len(c06Templates))
 	src := c06Expand(c06Templates[t], "")
-	deco := verifChoice("deco", 4)
+	deco := verifChoice("deco", 6)
 	compact := ""
 	tpl := c06Templates[t]
 	for i := 0; i < len(tpl); i++ {
